@@ -36,10 +36,11 @@ const (
 	stForget          // the Agglayer loses its most recent certificate(s); the node restarts
 	stDiverge         // the Agglayer's most recent certificate gets a different id; the node restarts
 	stReadFault       // epoch or status tick during which the k-th storage statement of any kind (also plain reads) fails
+	stL2Reorg         // the last 1-3 L2 blocks that no settled or open certificate covers are reorged; the chain continues differently
 	nSteps
 )
 
-var stepNames = []string{"L2events", "L2empty", "epoch", "status", "advance", "inError", "failBefore", "failAfter", "L1advance", "settle", "restart", "crashAfterSubmit", "crashBeforeSubmit", "crashNextCall", "loseDB", "epoch+storageFault", "snapshotDB", "staleDB", "agglayerForgets", "agglayerDiverges", "tick+readFault"}
+var stepNames = []string{"L2events", "L2empty", "epoch", "status", "advance", "inError", "failBefore", "failAfter", "L1advance", "settle", "restart", "crashAfterSubmit", "crashBeforeSubmit", "crashNextCall", "loseDB", "epoch+storageFault", "snapshotDB", "staleDB", "agglayerForgets", "agglayerDiverges", "tick+readFault", "L2reorg"}
 
 // asRun is one execution of the aggsender world
 type asRun struct {
@@ -188,6 +189,29 @@ func (a *asRun) step(s int) string {
 			a.r.Inconclusive("world: " + err.Error())
 			a.dead = true
 		}
+	case stL2Reorg:
+		a.m.mu.Lock()
+		open := a.m.openCert() != nil
+		low := uint64(1)
+		if ls := a.m.lastSettled(); ls != nil {
+			low = ls.To + 1
+		}
+		a.m.mu.Unlock()
+		if open || a.w.l2Next <= low {
+			desc += "(nothing reorgable)"
+			break
+		}
+		b := a.w.l2Next - uint64(1+g.Intn(3))
+		if a.w.l2Next < 4 || b < low {
+			b = low
+		}
+		if err := a.w.l2Reorg(b); err != nil {
+			a.r.Inconclusive("world: L2 reorg: " + err.Error())
+			a.dead = true
+			break
+		}
+		desc = fmt.Sprintf("L2reorg(from %d)", b)
+		a.cov["l2-reorg"] = true
 	case stReadFault:
 		if a.node == nil || a.refused || a.node.fault == nil {
 			desc += "(n/a)"
